@@ -36,7 +36,7 @@ type panicSite struct {
 func runC02(c *Ctx, tier string) {
 	r := NewReport("C02", "other", tier, c)
 	r.Explanation = "The full statement (no panic for any byte string the parsers accept) is not statically decidable here: most accesses are safe because of post-conditions of the zcrypto / x-crypto parsers that an analysis of zlint cannot see. What is decided is a LEDGER of panic obligations that is complete, by construction, for the classes it covers in packages zlint, lint, util and lints/*: P1 every index or slice expression whose bounds check the Go compiler's prove pass cannot eliminate (go build -gcflags=-d=ssa/check_bce/debug=1, replayed from a private build cache; each reported position is mapped to its enclosing function and expression); P2 every type assertion without comma-ok; P3 every explicit panic in code reachable from a lint method; P4 every integer division or remainder by a non-constant in such code; P5 every dereference of the result of util.GetExtFromCert (nil when the extension is absent). Each obligation must be discharged by (a) precondition pairing decided from the lint's own CheckApplies decision table — Execute asserts c.PublicKey.(T) only if every applicable path saw the comma-ok assertion to T succeed; GetExtFromCert(c, X) is dereferenced only if every applicable path saw IsExtInCert(c, X) for the same OID —, (b) a dominating nil test of the same value, or (c) a reviewed line of /verif/ledger/C02.txt (key = class|function|expression, one-line argument, typically a parser invariant). An obligation with none of the three is a violation, so dropping `ok &&` from a CheckApplies, removing a length test the compiler relied on, or adding an unguarded x[0] to a new lint is reported with its site. NOT decided: that the ledger's arguments are true (human review against the parser source), panics inside library callees, stack or memory exhaustion."
-	r.Rule("P1 bounds (compiler prove pass); P2 unchecked assertions; P3 explicit panics; P4 division; P5 nil-able extension deref; discharge = CheckApplies pairing | dominating guard | reviewed ledger line")
+	r.Rule("P1 bounds (compiler prove pass); P2 unchecked assertions; P3 explicit panics; P4 division; P5 nil-able extension deref; P6 pointer result used although the call's error was discarded; discharge = CheckApplies pairing | dominating guard | reviewed ledger line")
 	r.Trusted = []string{"the Go compiler's prove pass (bounds-check elimination)", "go/ssa", "the reviewed arguments in ledger/C02.txt", "zcrypto / x-crypto parser post-conditions quoted there"}
 	r.Assumptions = []string{"panics inside library functions called with unusual arguments are outside the ledger", "the ledger's one-line arguments were reviewed by reading; they are not re-proved"}
 
@@ -580,6 +580,9 @@ func c02SSA(c *Ctx, cs *Census, reach map[*ssa.Function]bool) []*panicSite {
 				out = append(out, &panicSite{class: "divide", fn: fname(f), expr: apath(x.X) + x.Op.String() + apath(x.Y), pos: x.Pos(), posStr: posStr, detail: "integer division by a value that is not a constant"})
 			case *ssa.Call:
 				if staticCalleeName(&x.Call) != "util.GetExtFromCert" {
+					if s := errIgnoredDeref(f, x, posStr); s != nil {
+						out = append(out, s)
+					}
 					return
 				}
 				oid := ""
@@ -808,6 +811,99 @@ func checkWitness(c *Ctx, cs *Census, wit string, site *panicSite, auto *c02Auto
 		}
 		return strings.Join(whys, "; and ")
 	}
+	if conj := strings.Split(wit, " && "); len(conj) > 1 {
+		for _, part := range conj {
+			if why := checkWitness(c, cs, strings.TrimSpace(part), site, auto); why != "" {
+				return why
+			}
+		}
+		return ""
+	}
+	if strings.HasPrefix(wit, "same-arg-as ") {
+		// same-arg-as <callee>: the site is a call whose first argument is the very
+		// value (same SSA value or same access path) passed first to a call of
+		// <callee> that dominates the site
+		want := strings.TrimSpace(strings.TrimPrefix(wit, "same-arg-as "))
+		in, _ := auto.byPos[site.pos].(*ssa.Call)
+		if in == nil || len(in.Call.Args) == 0 {
+			return "the site is not a call with arguments"
+		}
+		why := "no call of " + want + " dominates the site"
+		allInstrs(in.Parent(), func(i2 ssa.Instruction) {
+			call, ok := i2.(*ssa.Call)
+			if !ok || staticCalleeName(&call.Call) != want || len(call.Call.Args) == 0 {
+				return
+			}
+			if !(call.Block().Dominates(in.Block())) {
+				return
+			}
+			if call.Call.Args[0] == in.Call.Args[0] || apath(call.Call.Args[0]) == apath(in.Call.Args[0]) {
+				why = ""
+			} else if why != "" {
+				why = want + " validated " + apath(call.Call.Args[0]) + " but the site re-parses " + apath(in.Call.Args[0])
+			}
+		})
+		return why
+	}
+	if strings.HasPrefix(wit, "callee-checks-param ") {
+		// callee-checks-param <pkg> <func> <library callee>: <func> calls <library
+		// callee> on its own first parameter, unmodified, and returns a non-nil
+		// result on every path where that call's error is non-nil
+		f := strings.Fields(strings.TrimPrefix(wit, "callee-checks-param "))
+		if len(f) != 3 {
+			return "malformed witness: " + wit
+		}
+		fn := c.FuncMaybe(f[0], f[1])
+		if fn == nil || len(fn.Params) == 0 {
+			return "function " + f[0] + "." + f[1] + " not found"
+		}
+		found := ""
+		allInstrs(fn, func(in ssa.Instruction) {
+			call, ok := in.(*ssa.Call)
+			if !ok || staticCalleeName(&call.Call) != f[2] {
+				return
+			}
+			if len(call.Call.Args) == 0 || call.Call.Args[0] != ssa.Value(fn.Params[0]) {
+				found = f[1] + " calls " + f[2] + " on " + apath(call.Call.Args[0]) + ", not on its parameter as passed in: what it validates is not what the caller re-parses"
+				return
+			}
+			// error extract tested; the non-nil edge returns non-nil
+			for _, ref := range *call.Referrers() {
+				ex, ok := ref.(*ssa.Extract)
+				if !ok || ex.Index != 1 {
+					continue
+				}
+				for _, r2 := range *ex.Referrers() {
+					bo, ok := r2.(*ssa.BinOp)
+					if !ok || !(isNilConst(bo.X) || isNilConst(bo.Y)) {
+						continue
+					}
+					for _, r3 := range *bo.Referrers() {
+						iff, ok := r3.(*ssa.If)
+						if !ok {
+							continue
+						}
+						errBlk := iff.Block().Succs[0]
+						if bo.Op == token.EQL {
+							errBlk = iff.Block().Succs[1]
+						}
+						if ret, ok := errBlk.Instrs[len(errBlk.Instrs)-1].(*ssa.Return); ok && len(ret.Results) == 1 && !isNilConst(ret.Results[0]) {
+							if found == "" {
+								found = "ok"
+							}
+						}
+					}
+				}
+			}
+		})
+		switch found {
+		case "ok":
+			return ""
+		case "":
+			return f[1] + " no longer rejects its parameter when " + f[2] + " fails on it"
+		}
+		return found
+	}
 	if strings.HasPrefix(wit, "dominated-by ") {
 		return auto.dominatedBy(site, strings.TrimSpace(strings.TrimPrefix(wit, "dominated-by ")))
 	}
@@ -927,4 +1023,71 @@ func checkWitness(c *Ctx, cs *Census, wit string, site *panicSite, auto *c02Auto
 		return "CheckApplies of " + f[1] + " has no loop over " + f[2]
 	}
 	return "unknown witness kind " + f[0]
+}
+
+// errIgnoredDeref: P6 — `v, _ := f(...)` (or the error simply never looked at)
+// where v is a pointer that is then dereferenced or used as a method receiver:
+// when f fails v is nil and the use panics. Discharged only by a nil test of v
+// dominating every use, or by a reviewed ledger line.
+func errIgnoredDeref(f *ssa.Function, x *ssa.Call, posStr string) *panicSite {
+	tup, ok := x.Type().(*types.Tuple)
+	if !ok || tup.Len() < 2 {
+		return nil
+	}
+	last := tup.At(tup.Len() - 1).Type()
+	if n, ok := last.(*types.Named); !ok || n.Obj().Name() != "error" || n.Obj().Pkg() != nil {
+		return nil
+	}
+	if _, isPtr := tup.At(0).Type().Underlying().(*types.Pointer); !isPtr {
+		return nil
+	}
+	var ptr *ssa.Extract
+	errUsed := false
+	for _, ref := range *x.Referrers() {
+		ex, ok := ref.(*ssa.Extract)
+		if !ok {
+			continue
+		}
+		if ex.Index == 0 {
+			ptr = ex
+		}
+		if ex.Index == tup.Len()-1 && len(*ex.Referrers()) > 0 {
+			errUsed = true
+		}
+	}
+	if errUsed || ptr == nil {
+		return nil
+	}
+	// uses of the pointer that need it non-nil
+	var uses []ssa.Instruction
+	uses = append(uses, derefsOf(ptr)...)
+	for _, ref := range *ptr.Referrers() {
+		if call, ok := ref.(ssa.CallInstruction); ok {
+			cc := call.Common()
+			if !cc.IsInvoke() && len(cc.Args) > 0 && cc.Args[0] == ssa.Value(ptr) {
+				if callee := cc.StaticCallee(); callee != nil && callee.Signature.Recv() != nil {
+					uses = append(uses, call)
+				}
+			}
+		}
+	}
+	if len(uses) == 0 {
+		return nil
+	}
+	name := staticCalleeName(&x.Call)
+	if name == "" {
+		name = "a dynamic call"
+	}
+	s := &panicSite{class: "err-ignored", fn: fname(f), expr: name + "→deref", pos: x.Pos(), posStr: posStr,
+		detail: "the error of " + name + " is discarded and its pointer result (nil on failure) is dereferenced / used as a method receiver in " + fname(f)}
+	guarded := true
+	for _, u := range uses {
+		if !guardedBy(u.Block(), ptr, token.NEQ) {
+			guarded = false
+		}
+	}
+	if guarded {
+		s.how = "every use is dominated by a nil test of the result"
+	}
+	return s
 }
